@@ -313,6 +313,13 @@ def G35_hidden_instance_state(repo, clause):
     for c in [x for x in raw.body if isinstance(x, ast.ClassDef)]:
         n_cls += 1
         init_attrs, stores, loads = set(), [], set()
+        init_computed = False
+        # the constructor as the engine sees it (loops over literal tables of attribute names unrolled): its stores count as well
+        nf_init = repo.maybe_fn("%s.__init__" % c.name)
+        if nf_init is not None:
+            for x in nf_init.all_nodes():
+                if isinstance(x, ast.Attribute) and isinstance(x.value, ast.Name) and x.value.id == "self" and isinstance(x.ctx, ast.Store):
+                    init_attrs.add(x.attr)
         for g in [g for g in c.body if isinstance(g, ast.FunctionDef)]:
             is_setter = g.name == "__setattr__" or any((dotted(d) or "").endswith(".setter") for d in g.decorator_list)
             for x in ast.walk(g):
@@ -331,14 +338,22 @@ def G35_hidden_instance_state(repo, clause):
                 if isinstance(x, ast.Call) and isinstance(x.func, ast.Name) and x.func.id in ("setattr", "vars") and x.args and isinstance(x.args[0], ast.Name) and x.args[0].id == "self":
                     nm = const_value(x.args[1]) if x.func.id == "setattr" and len(x.args) > 1 else None
                     if g.name != "__init__":
-                        stores.append((g, x, nm if isinstance(nm, str) else "<%s(self)>" % x.func.id))
+                        # setattr(self, <computed name>, v) is the loop-over-kinds spelling of ordinary stores: which attribute it names is not decided here
+                        if isinstance(nm, str) or x.func.id == "vars":
+                            stores.append((g, x, nm if isinstance(nm, str) else "<vars(self)>"))
                     elif isinstance(nm, str):
                         init_attrs.add(nm)
+                    elif x.func.id == "setattr":
+                        init_computed = True
                 if isinstance(x, ast.Call) and isinstance(x.func, ast.Name) and x.func.id == "getattr" and len(x.args) >= 2 and isinstance(x.args[0], ast.Name) and x.args[0].id == "self" \
                         and isinstance(const_value(x.args[1]), str):
                     loads.add(const_value(x.args[1]))
         props = {g.name for g in c.body if isinstance(g, ast.FunctionDef) and any((dotted(d) or "") == "property" or (dotted(d) or "").endswith(".setter") for d in g.decorator_list)}
         seen = set()
+        if init_computed and nf_init is not None and any(isinstance(x, ast.Call) and isinstance(x.func, ast.Name) and x.func.id == "setattr" and len(x.args) > 1
+                                                        and not isinstance(const_value(x.args[1]), str) for x in nf_init.all_nodes()):
+            # the constructor creates attributes under computed names that the normalisation could not resolve: the set of constructor fields is unknown
+            stores = [t_ for t_ in stores if t_[2] in ("__dict__", "<vars(self)>")]
         for g, x, attr in stores:
             if attr in init_attrs or attr in props or (g.name, attr) in seen:
                 continue
@@ -425,4 +440,94 @@ def G33_effect_before_validation(repo, clause, funcs=("Atoms.save", "Atoms.load"
                           slot="closes-callers-handle:%s" % fn.qualname, positive="robust"))
     f0 = repo.maybe_fn(funcs[0]) or repo.all_fns()[0]
     obs.append(Ob("G33", clause, f0, f0.node, True, "%d refusals beside a file opened for writing, %d closes of parameter objects inspected" % (n_a, n_b), construct="fault discipline inventory", slot="inventory"))
+    return obs
+
+
+def G36_refusal_before_mutation(repo, clause, func="Atoms.__delitem__"):
+    """A deletion request with an index that does not exist is refused by numpy itself: `np.delete(self.<per-atom array>, indices, axis=0)` raises IndexError.  That is the
+    only validation the request ever gets, so it has to come BEFORE the first update of the term arrays (which are filtered through a helper that never raises): otherwise
+    the refused request has already dropped and renumbered terms, and the retry with valid indices works on a corrupted object."""
+    fn = repo.fn(func)
+    params = [p for p in fn.params if p not in ("self", "cls")]
+    if not params:
+        raise AnalysisError("G36: %s has no index parameter" % func)
+    P = params[0]
+    validating, others = [], []
+    for st in fn.own_nodes():
+        if not isinstance(st, ast.Assign):
+            continue
+        tg = [t for t in st.targets for t in ([t] + (list(t.elts) if isinstance(t, (ast.Tuple, ast.List)) else []))
+              if isinstance(t, ast.Attribute) and isinstance(t.value, ast.Name) and t.value.id == "self"]
+        if not tg:
+            continue
+        v = st.value
+        raw = isinstance(v, ast.Call) and call_name(v) == "delete" and len(v.args) >= 2 and isinstance(v.args[1], ast.Name) and v.args[1].id == P \
+            and fn.rd.defs_at(st, P) and all(not isinstance(d, ast.AST) for d in fn.rd.defs_at(st, P))
+        (validating if raw else others).append(st)
+    if not validating:
+        return [Ob("G36", clause, fn, fn.node, False, "no np.delete(self.<array>, %s, ...) with the caller's own index argument found in %s: cannot tell what validates the request" % (P, func),
+                   construct="np.delete(self.x, %s, axis=0)" % P, slot="validating-delete", undecided=True)]
+    obs = []
+    first = validating[0]
+    late = sorted([st for st in others if not any(fn.cfg.dominates(v_, st) for v_ in validating)], key=lambda x: x.lineno)
+    obs.append(Ob("G36", clause, fn, late[0] if late else first, not late,
+                  "%s: %s" % (func, "the first numpy deletion with the caller's indices (which raises IndexError for an index that does not exist) precedes every other update of the object"
+                              if not late else "`%s` updates the object BEFORE any np.delete(..., %s, ...) has had the chance to refuse an invalid index: a refused request leaves terms already "
+                              "dropped / renumbered, and the retry with valid indices then removes and shifts the wrong terms" % (ast.unparse(late[0])[:70], P)),
+                  slot="refusal-first", positive="robust"))
+    return obs
+
+
+def G37_constructor_copies_arrays(repo, clause, func="Atoms.__init__"):
+    """The constructor makes its OWN arrays (np.array copies).  A no-copy conversion of an argument - np.asarray / np.asanyarray / np.ascontiguousarray, np.array(..., copy=False),
+    np.frombuffer - stored on the object makes two Atoms objects (or the object and the caller's array) share storage: every in-place update the class performs (translate `+=`,
+    re-typing of mapped atoms in extend, the re-index helper's `out=`) then writes through to the other object."""
+    fn = repo.fn(func)
+    obs = []
+    n = 0
+    for st in [x for x in fn.own_nodes() if isinstance(x, ast.Assign)]:
+        if not any(isinstance(t, ast.Attribute) and isinstance(t.value, ast.Name) and t.value.id == "self" for t in st.targets):
+            continue
+        n += 1
+        for c in [y for y in ast.walk(st.value) if isinstance(y, ast.Call)]:
+            nm = call_name(c)
+            nocopy = nm in ("asarray", "asanyarray", "ascontiguousarray", "asfortranarray", "frombuffer") or \
+                (nm == "array" and any(k.arg == "copy" and const_value(k.value) is False for k in c.keywords))
+            if nocopy and c.args and any(isinstance(y, ast.Name) and y.id in fn.params for y in ast.walk(c.args[0])):
+                obs.append(Ob("G37", clause, fn, st, False,
+                              "`%s` in %s stores a NO-COPY conversion of the argument: when the caller passes an ndarray of that dtype (e.g. another Atoms object's array) both objects share "
+                              "the storage, and the in-place updates of this class (re-typing of mapped atoms in extend, translate, re-indexing) modify the other object too"
+                              % (ast.unparse(st)[:70], func), slot="no-copy-store:%s" % ast.unparse(st.targets[0]), positive="robust"))
+    obs.append(Ob("G37", clause, fn, fn.node, True, "%d stores to self in %s inspected for no-copy conversions of arguments" % (n, func), construct="constructor copy inventory", slot="inventory"))
+    return obs
+
+
+def G38_tolerance_dimension(repo, clause, scope=ALL_LIB):
+    """A deviation and the tolerance it is compared with have the same dimension: a SQUARED distance (`(d ** 2).sum()`, cdist(..., 'sqeuclidean')) compared with the linear
+    tolerance `atol` is off by the square root - with atol = 0.05 the test `ss.max() <= atol` accepts deviations up to 0.22."""
+    from .common import length_degree
+    obs = []
+    fns = _scope_fns(repo, scope)
+    n = 0
+    for fn in fns:
+        if "atol" not in fn.params and not (fn.outer is not None and "atol" in fn.outer.params):
+            continue
+        for c in [x for x in fn.own_nodes() if isinstance(x, ast.Compare) and len(x.ops) == 1 and isinstance(x.ops[0], (ast.Lt, ast.LtE, ast.Gt, ast.GtE))]:
+            l, r = c.left, c.comparators[0]
+            tol_side = [e for e in (l, r) if isinstance(e, ast.Name) and e.id == "atol"]
+            if len(tol_side) != 1:
+                continue
+            other = r if tol_side[0] is l else l
+            try:
+                d = length_degree(fn, other)
+            except Exception:
+                d = None
+            n += 1
+            if d is not None and d == 2:
+                obs.append(Ob("G38", clause, fn, c, False,
+                              "`%s` in %s compares a SQUARED length with the linear tolerance atol: the accepted deviation is sqrt(atol), not atol (0.22 instead of 0.05) - a slightly bent "
+                              "pattern is taken for a straight one" % (ast.unparse(c)[:60], fn.qualname), slot="squared-vs-linear:%s" % fn.qualname, positive="robust"))
+            else:
+                obs.append(Ob("G38", clause, fn, c, True, "`%s` in %s: deviation of degree %s against atol" % (ast.unparse(c)[:50], fn.qualname, d), slot="tol-compare:%s:%s" % (fn.qualname, ast.unparse(other)[:30])))
+    obs.append(Ob("G38", clause, fns[0], fns[0].node, True, "%d functions in scope, %d direct comparisons with atol inspected" % (len(fns), n), construct="tolerance dimension inventory", slot="inventory"))
     return obs
